@@ -850,7 +850,7 @@ func init() {
 			if tier == "thorough" {
 				return 4800
 			}
-			return 240
+			return 720
 		},
 		Run: vRunLancero,
 		Meta: vMeta{Level: "exploration",
